@@ -44,7 +44,7 @@ if P and P.get('kind') == 'run':
         LARK = None
         BUILD_ERR = e
 
-if P and P.get('kind') in ('tab', 'prio', 'chain'):
+if P and P.get('kind') in ('tab', 'prio', 'chain', 'tabcorpus'):
     from lark.grammar import Rule, NonTerminal, Terminal, RuleOptions
     from lark.common import ParserConf
     from lark.parsers.lalr_analysis import LALR_Analyzer, Shift, Reduce
@@ -70,6 +70,7 @@ def _run_body(rec, ix):
     ip = LARK.parse_interactive()
     kinds = []
     seen_choices = [set(ip.choices())]
+    seen_accepts = [set(ip.accepts())]
     ok = True
     err_at = None
     with hs.watchdog():
@@ -81,6 +82,7 @@ def _run_body(rec, ix):
                 err_at = k
                 ip.feed_token(Token(name, name.lower()))
                 seen_choices.append(set(ip.choices()))
+                seen_accepts.append(set(ip.accepts()))
                 k += 1
             err_at = len(kinds)
             ip.feed_eof()
@@ -99,6 +101,22 @@ def _run_body(rec, ix):
             if _terms_only(got) != want:
                 return hs.fail(rec, 'next-token set after prefix of length %d differs from the LALR(1) automaton' % n, kinds=kinds,
                                got=sorted(_terms_only(got)), want=sorted(want))
+        # accepts(): exactly the token types the automaton can consume next (a table entry may be a merged LALR look-ahead whose
+        # reductions run into an error: it is listed by choices() but cannot be consumed)
+        for n, got in enumerate(seen_accepts):
+            prefix = kinds[:n]
+            want = set()
+            for t in sorted(BNF.terminals) + ['$END']:
+                if t == '$END':
+                    if ORACLE.run(prefix)[0]:
+                        want.add(t)
+                else:
+                    acc_t, err_t, _ = ORACLE.run(prefix + [t])
+                    if acc_t or err_t is None or err_t > n:
+                        want.add(t)
+            if got != want:
+                return hs.fail(rec, 'accepts() after prefix of length %d is not the set of token types the LALR(1) automaton can consume' % n, kinds=kinds,
+                               got=sorted(got), want=sorted(want))
         member = cfg.member(BNF, cfg.TokenInput(kinds))
         if ok and not member:
             return hs.fail(rec, 'accepted a non-sentence', kinds=kinds)
@@ -170,6 +188,54 @@ def _norm_oracle_table(o):
                 r[name] = a
         out[frozenset(item(*x) for x in s)] = r
     return out
+
+
+def _corpus_rules(g):
+    """lark Rule objects for a plain-BNF DSL grammar (terminals as declared names, literals by their anonymous names)."""
+    rules = []
+    bnf = cfg.BNF(g)
+    for r in g.rules:
+        for order, a in enumerate(bnf.rules[r.name].alts):
+            rules.append(Rule(NonTerminal(r.name), [Terminal(s[1]) if s[0] == 't' else NonTerminal(s[1]) for s in a.syms], order, None,
+                              RuleOptions(priority=r.priority)))
+    return rules, bnf
+
+
+def _tabcorpus_body(rec, gi):
+    name = RUN_GRAMMARS[hs.sel(gi, len(RUN_GRAMMARS))]
+    rules, bnf = _corpus_rules(corpus.TOK[name]['g'])
+    err = None
+    table = None
+    with hs.watchdog():
+        try:
+            table = _lark_table(rules)
+        except GrammarError as e:
+            err = e
+    with hs.untraced():
+        rec['key'] = name
+        rec['nontrivial'] = True
+        if bnf.productive() != set(bnf.rules) or bnf.is_cyclic():
+            # cyclic grammars put a reduce on the end marker into the end state, which lark's parser loop never consults: the entry is a
+            # matter of convention (behaviour is compared by the run harness)
+            return True
+        o = lalrref.LALR(bnf)
+        rec['count'] = {'grammars': 1, 'states': len(o.states)}
+        if bool(o.rr_conflicts) != (err is not None):
+            return hs.fail(rec, 'GrammarError %s but reference reduce/reduce conflicts: %d' % ('raised' if err else 'not raised', len(o.rr_conflicts)), grammar=name)
+        if err is None:
+            want = _norm_oracle_table(o)
+            if table != want:
+                diff = [str(x) for x in set(table) ^ set(want)][:2] or [str((x, table[x], want[x])) for x in table if table[x] != want[x]][:1]
+                return hs.fail(rec, 'LALR(1) table of corpus grammar %s differs from the reference' % name, diff=diff)
+    return True
+
+
+def tabcorpus(gi: int) -> bool:
+    """
+    pre: True
+    post: _
+    """
+    return hs.run_path(_tabcorpus_body, (gi,), corner=lambda gi: hs.sel(gi, len(RUN_GRAMMARS)) == len(RUN_GRAMMARS) - 1)
 
 
 def _tab_body(rec, a, b, c, d):
@@ -395,6 +461,7 @@ def plan(tier, seed):
         ng = (pool - 1 - pa) * (pool * (pool - 1) // 2)
         slices.append({'id': 'tab:pool%d:a%d' % (pool, pa), 'func': 'tab', 'params': {'kind': 'tab', 'pool': pool, 'pin_a': pa},
                        'timeout': int(ng * 0.8 + 40), 'bound': {'grammars': ng}, 'twin': pa in (0, pool - 2)})
+    slices.append({'id': 'tabcorpus', 'func': 'tabcorpus', 'params': {'kind': 'tabcorpus'}, 'timeout': 300, 'bound': {'grammars': len(RUN_GRAMMARS)}})
     slices.append({'id': 'prio:symbolic', 'func': 'prio', 'params': {'kind': 'prio'}, 'timeout': 60,
                    'bound': {'priorities': 'all of Z^2'}})
     slices.append({'id': 'prio3:symbolic', 'func': 'prio3', 'params': {'kind': 'prio'}, 'timeout': 120,
